@@ -11,3 +11,4 @@ from . import configuration  # noqa: F401
 from . import primitives  # noqa: F401
 from . import pragmas  # noqa: F401
 from . import api  # noqa: F401
+from . import nesting  # noqa: F401
